@@ -381,6 +381,9 @@ def gen_scenario(rng, size):
         else:
             steps.append(mk_backup(rng, prof_q, prof_z, prof_k))
             nb += 1
+            if rng.random() < 0.15:
+                # a commit, then a second backup of the same kind within the same second: refused
+                steps.append(dict(op='collide', recs=[[rng.choice([1, 2, 6]), rng.choice([1, 40, 300])]]))
     if nb < 2:
         steps.append(mk_backup(rng, prof_q, prof_z, prof_k))
         steps.append(dict(op='commit', recs=[[1, 40]]))
@@ -834,6 +837,52 @@ class Run:
             self.violation('C18:stray-files', 'unexpected files in the repository: %r' % other)
         if st.get('also2') is not None and not self.outside:
             self.backup2(st['also2'].replace('-', ''), committed)
+
+    def dir_bytes(self):
+        out = {}
+        for n in sorted(os.listdir(self.repo)):
+            with open(os.path.join(self.repo, n), 'rb') as f:
+                out[n] = f.read()
+        return out
+
+    def do_collide(self, st):
+        """a commit, then a second backup of the SAME kind in the same second as the last one: repozo
+        refuses it ("Cannot overwrite existing file").  A refused run must change nothing at all in the
+        repository -- judged also where same-second backups are otherwise outside the guarantee"""
+        if self.txn is not None or not self.held or self.outside:
+            return
+        e = self.held[-1]
+        if not os.path.exists(os.path.join(self.repo, e.fname)):
+            return
+        if not e.full and (e.excluded or self.pack_since_backup):
+            return                                   # an incremental is not certain to be decided again
+        self.do_commit(dict(recs=st.get('recs') or [[1, 40]]))
+        flags = ('F' if e.full else '') + ('z' if e.fname.endswith('z') else '')
+        before = self.dir_bytes()
+        now0, ticks0 = _FT.now, _FT.ticks
+        _FT.now, _FT.ticks = e.t, None               # the clock still shows the second of that backup
+        try:
+            _FT.readings = []
+            status, _o, msg = run_main(self.argv('-B', ['-' + c for c in flags], f=self.fsn))
+        finally:
+            _FT.now, _FT.ticks = max(now0, e.t), ticks0
+        after = self.dir_bytes()
+        obs = err_kind(status, msg)
+        self.count('backup:refused-same-second-same-kind:' + obs)
+        self.trace.append('backup %s (same second) -> %s' % (flags or '-', obs))
+        self.emit('backup %s %s' % (d14(e.t), flags or '-'), obs)
+        ls, _other = listing(self.repo)
+        self.emit('ls', ls)
+        if status == 0:
+            # not refused after all: two backups share a second, the rest is outside the guarantee
+            self.outside = 'two-backups-within-one-second'
+            return
+        if after != before:
+            diff = sorted(n for n in set(before) | set(after) if before.get(n) != after.get(n))
+            self.violations.append(('C18:refused-backup-changed-repository',
+                                    'backup -%s at %s was refused (%s) but changed %r in the repository; a '
+                                    'refused run must leave it byte for byte as it was' % (
+                                        flags or 'B', dashed(e.t), msg[:60].strip(), diff)))
 
     def backup2(self, flags, committed):
         """the same Data.fs is also backed up into a SECOND repository (slow mode, no -k) by the same
